@@ -308,6 +308,15 @@ func VerifC05Scheduler() {
 		sym.Reach("quiescent")
 		// nothing in flight and nothing to schedule: everything must be built
 		sym.Assert(stages.AllStoresCompleted(), "no-deadlock-stores-complete-at-quiescence")
+		// the same, read off the matrix (the accessor above is code under test too): every
+		// segment of every store stage is Completed or NoOp
+		final := c05Matrix(stages)
+		for stg := 0; stg < nStores; stg++ {
+			for seg := 0; seg < nSegs; seg++ {
+				st := c05State(final, stg, seg)
+				sym.Assert(st == 'C' || st == 'N', "every-store-segment-built-at-quiescence")
+			}
+		}
 		sym.Assert(stages.LastStageCompleted(), "no-deadlock-outputs-written-at-quiescence")
 	}
 	_ = nStages
